@@ -555,6 +555,41 @@ func (r *run) opPutFail(m msg) {
 	r.check("putfail")
 }
 
+// opPutFailIdx: Put while the next AcquirePage on the INDEX factory fails (fires only when the new
+// sequence starts another index page). The Put must return the error, consume no sequence and
+// leave every earlier message intact; it may skip the space it had allocated.
+func (r *run) opPutFailIdx(m msg) {
+	op := "putfailidx " + m.arg()
+	before := r.q.AppendedSeq()
+	r.c.Guard(op, func() string {
+		r.ctl.failIndexAcquire, r.ctl.failFired = true, false
+		err := r.q.Put(m.data)
+		fired := r.ctl.failFired
+		r.ctl.failIndexAcquire = false
+		switch {
+		case errors.Is(err, errInjected):
+			r.c.Branch("put-index-acquire-failed")
+			if a := r.q.AppendedSeq(); a != before {
+				r.c.Fail("failed-put-moved-appended", fmt.Sprintf("Put returned the AcquirePage error, appended went %d -> %d", before, a))
+			}
+			return "err acquire " + r.qstate()
+		case err != nil:
+			return putErr(err)
+		}
+		seq := r.q.AppendedSeq()
+		if seq != before+1 {
+			r.c.Fail("seq-not-dense", fmt.Sprintf("Put returned nil, appended went %d -> %d", before, seq))
+		}
+		if fired {
+			r.c.Branch("put-ok-although-index-acquire-failed")
+		}
+		r.want[seq] = m.data
+		r.touched(true)
+		return fmt.Sprintf("ok seq=%d %s", seq, r.curStr())
+	})
+	r.check("putfailidx")
+}
+
 // opPutN: n Puts of the same small message; the oracle keeps a sample of the sequences and
 // scanAll reads every one of them back once.
 func (r *run) opPutN(n int, m msg, rng *rand.Rand) {
@@ -908,15 +943,19 @@ func (a area) Run(c *core.Ctx) error {
 				r.boundaryCase(rng, 1, 0)
 			case i == 6:
 				r.resetCase(rng)
-			case c.Tier == "thorough" && i >= 7 && i <= 10:
+			case i == 7:
+				r.stressCase(rng, 8, 1500)
+			case c.Tier == "thorough" && i >= 8 && i <= 12:
 				// one below / one above the index page boundary, the second boundary, GC overlap with pending messages
 				switch i {
-				case 7:
-					r.boundaryCase(rng, 1, -1)
 				case 8:
-					r.boundaryCase(rng, 1, 1)
+					r.boundaryCase(rng, 1, -1)
 				case 9:
+					r.boundaryCase(rng, 1, 1)
+				case 10:
 					r.boundaryCase(rng, 2, 0)
+				case 11:
+					r.stressCase(rng, 16, 20000) // crosses nothing but runs long enough for real preemption
 				default:
 					r.gcOverlapCase(rng, false)
 				}
@@ -1122,6 +1161,25 @@ func (r *run) bigCase(rng *rand.Rand) {
 	for s := r.q.AcknowledgedSeq(); s <= r.q.AppendedSeq(); s++ {
 		r.opGet(s)
 	}
+	r.drainedReopen(rng)
+}
+
+// drainedReopen: everything acknowledged, close/reopen (the cursor must stay at the end of the last
+// message, on the last data page), new appends, GC before any new ack, read back, reopen, read back.
+func (r *run) drainedReopen(rng *rand.Rand) {
+	if r.q == nil {
+		return
+	}
+	r.c.Branch("drained-reopen-then-gc")
+	r.opAck(r.q.AppendedSeq())
+	r.opReopen()
+	r.opPut(lit(randBytes(rng, 7)))
+	r.opPut(randMsg(rng))
+	r.opGC()
+	r.readUnacked(rng)
+	r.opReopen()
+	r.opGC()
+	r.readUnacked(rng)
 }
 
 // concCase: 2–4 appender threads, random interleaving of alloc/write/persist; with restart=true
@@ -1232,6 +1290,7 @@ func (r *run) gcOverlapCase(rng *rand.Rand, drained bool) {
 	for s := r.q.AcknowledgedSeq(); s <= r.q.AppendedSeq(); s++ {
 		r.opGet(s)
 	}
+	r.drainedReopen(rng)
 }
 
 // gcStepCase: small messages, GC calls split into their steps and interleaved with puts, acks, gets.
@@ -1279,6 +1338,12 @@ func (r *run) boundaryCase(rng *rand.Rand, k, d int) {
 	n := k*itemsPerPage + d
 	r.opPutN(n, lit([]byte{byte(0x41 + rng.Intn(20))}), rng)
 	r.opGet(0)
+	// the append that starts the next index page, with the page acquisition failing (d = 0 only;
+	// otherwise the fault does not fire and this is an ordinary append)
+	r.opPutFailIdx(lit(randBytes(rng, 6)))
+	r.opGet(r.q.AppendedSeq())
+	r.opGet(0)
+	n = int(r.q.AppendedSeq()) + 1 // d = 0: still k*itemsPerPage, the reopen below is exactly at the boundary
 	r.opReopen()
 	r.opPut(lit(randBytes(rng, 3)))
 	r.opGet(0)
@@ -1457,4 +1522,98 @@ func (r *run) twoReaders() {
 			r.c.Fail("returned-put-lost-or-altered", m)
 		}
 	}
+}
+
+// stressCase: G goroutines append M small messages each to ONE queue on the real Go scheduler (no
+// parking, a barrier releases them together). Oracle only (the order is the scheduler's): the
+// appended sequence advanced by exactly G*M, every sequence holds exactly one of the appended
+// messages byte for byte, no message appears twice, each goroutine's messages keep their order —
+// before and after close/reopen.
+func (r *run) stressCase(rng *rand.Rand, g, m int) {
+	r.c.Branch("case-concurrent-appenders-real-scheduler")
+	r.opNew()
+	dir, err := os.MkdirTemp("", "lvh-c05-stress-*")
+	if err != nil {
+		r.c.Fail("harness-panic", err.Error())
+		return
+	}
+	r.tmp = append(r.tmp, dir)
+	q, err := queue.NewQueue(dir, 0)
+	if err != nil {
+		r.c.Fail("harness-panic", err.Error())
+		return
+	}
+	defer func() { q.Close() }()
+	salt := byte(rng.Intn(256))
+	mk := func(gid, idx int) []byte {
+		b := make([]byte, 12)
+		b[0], b[1] = byte(gid), byte(gid>>8)
+		b[2], b[3], b[4], b[5] = byte(idx), byte(idx>>8), byte(idx>>16), byte(idx>>24)
+		for j := 6; j < 12; j++ {
+			b[j] = byte(gid*31+idx*7+j) ^ salt
+		}
+		return b
+	}
+	start := make(chan struct{})
+	errs := make(chan error, g)
+	for gid := 0; gid < g; gid++ {
+		go func(gid int) {
+			<-start
+			for idx := 0; idx < m; idx++ {
+				if err := q.Put(mk(gid, idx)); err != nil {
+					errs <- fmt.Errorf("goroutine %d append %d: %v", gid, idx, err)
+					return
+				}
+			}
+			errs <- nil
+		}(gid)
+	}
+	close(start)
+	for i := 0; i < g; i++ {
+		if e := <-errs; e != nil {
+			r.c.Fail("concurrent-append-failed", e.Error())
+		}
+	}
+	verify := func(when string) {
+		app := q.AppendedSeq()
+		if app != int64(g*m)-1 {
+			r.c.Fail("seq-not-dense", fmt.Sprintf("%s: %d goroutines x %d successful appends, appended sequence is %d (want %d)", when, g, m, app, g*m-1))
+		}
+		next := make([]int, g)
+		bad := 0
+		for s := int64(0); s <= app && bad < 3; s++ {
+			b, err := q.Get(s)
+			if err != nil || len(b) != 12 {
+				bad++
+				r.c.Fail("returned-put-lost-or-altered", fmt.Sprintf("%s: sequence %d: err=%v len=%d", when, s, err, len(b)))
+				continue
+			}
+			gid := int(b[0]) | int(b[1])<<8
+			idx := int(b[2]) | int(b[3])<<8 | int(b[4])<<16 | int(b[5])<<24
+			if gid >= g || !bytes.Equal(b, mk(gid, idx)) {
+				bad++
+				r.c.Fail("returned-put-lost-or-altered", fmt.Sprintf("%s: sequence %d holds %s, not one of the appended messages", when, s, short(b)))
+				continue
+			}
+			if idx != next[gid] {
+				bad++
+				r.c.Fail("returned-put-lost-or-altered", fmt.Sprintf("%s: sequence %d holds append %d of goroutine %d, expected its append %d (lost or duplicated)", when, s, idx, gid, next[gid]))
+			}
+			next[gid] = idx + 1
+		}
+		for gid := 0; gid < g && bad == 0; gid++ {
+			if next[gid] != m {
+				r.c.Fail("returned-put-lost-or-altered", fmt.Sprintf("%s: goroutine %d: %d of its %d returned appends are readable", when, gid, next[gid], m))
+			}
+		}
+	}
+	verify("after the appenders finished")
+	q.Close()
+	q, err = queue.NewQueue(dir, 0)
+	if err != nil {
+		r.c.Fail("harness-panic", err.Error())
+		return
+	}
+	verify("after close/reopen")
+	r.gotOK = true
 }
